@@ -1,7 +1,7 @@
 (* C08 — correspondence helpers: evaluate the models on views recorded from the real libraries and
    compare with the implementation's answer. *)
 From Coq Require Import ZArith List Bool NArith.
-From S2T Require Import Lib.PyStr C08.Model.
+From S2T Require Import Lib.PyStr C08.Model C08.Pad.
 Import ListNotations.
 Open Scope N_scope.
 
@@ -17,7 +17,9 @@ Inductive ccase :=
 | CZip (ms : list zmember) (n : nat) (impl : N)        (* _extract_from_zip: results before the end, 0 done / 1 encrypted / 2 other error *)
 | C7z (v : sz_view) (impl : bool)                      (* read_archive raised the encrypted error *)
 | CEpub (v : epub_view) (impl : bool)                  (* _is_epub_encrypted *)
-| CPdf (v : pdf_view) (impl : bool).                   (* read_pdf raised the encrypted error *)
+| CPdf (v : pdf_view) (impl : bool)                    (* read_pdf raised the encrypted error *)
+| CPad (bs : nat) (d : bytes) (impl : bytes)           (* _pkcs7_pad *)
+| CUnpad (bs : nat) (d : bytes) (impl : option bytes). (* _pkcs7_unpad; None = ValueError *)
 
 Definition doc_code (r : doc_res) : N := match r with DocEncrypted => 0 | DocNotDoc => 1 | DocContinue => 2 end.
 Definition zout_code (o : zout) : N := match o with ZDone => 0 | ZEncrypted => 1 | ZFailed => 2 end.
@@ -36,6 +38,13 @@ Definition corr_case_gen (legacy : bool) (c : ccase) : bool :=
       Bool.eqb (match sz_open_gen legacy v with SzEncrypted => true | _ => false end) impl
   | CEpub v impl => Bool.eqb (epub_detect_gen legacy v) impl
   | CPdf v impl => Bool.eqb (pdf_detect v) impl
+  | CPad bs d impl => str_eqb (pkcs7_pad bs d) impl
+  | CUnpad bs d impl =>
+      match pkcs7_unpad bs d, impl with
+      | UOk x, Some y => str_eqb x y
+      | UErr, None => true
+      | _, _ => false
+      end
   end.
 Definition corr_case := corr_case_gen false.
 Definition corr_case_legacy := corr_case_gen true.
